@@ -161,6 +161,47 @@ func clItemImmutable(c *Ctx) {
 	}
 }
 
+// Fresh items start alive: the allocator clears the delete stamp of every block
+// it obtains from the user allocator (which may hand back recycled, non-zeroed memory).
+func clAllocItemInitialises(c *Ctx) {
+	p := c.P
+	fn := p.Func("nitro", "Nitro", "allocItem")
+	fi := p.Info(fn)
+	fDead := p.Field("nitro", "Item", "deadSn")
+	fLen := p.Field("nitro", "Item", "dataLen")
+	fMalloc := p.Field("nitro", "Config", "mallocFun")
+	n := 0
+	for _, in := range fi.Instrs {
+		call, ok := in.(*ssa.Call)
+		if !ok || call.Call.StaticCallee() != nil || call.Call.IsInvoke() || lastField(call.Call.Value) != fMalloc {
+			continue
+		}
+		n++
+		cleared := fi.PathAvoiding(in, isReturn, func(x ssa.Instruction) bool {
+			st, ok := x.(*ssa.Store)
+			if !ok {
+				return false
+			}
+			f, _ := addrField(st.Addr)
+			return f == fDead && isConstInt(0)(st.Val)
+		}) == nil
+		c.Check(cleared, fn, in, "item from the user allocator starts with deadSn == 0",
+			"blocks from the configured allocator are not zeroed (a recycling allocator returns the bytes of a previously freed item): a new item inherits a stale delete stamp and is born dead — invisible to lookups and snapshots although Put succeeded and was counted")
+	}
+	if n == 0 {
+		undecidedf("allocItem: call of the configured malloc function not found")
+	}
+	okLen := fi.PathAvoiding(nil, isReturn, func(x ssa.Instruction) bool {
+		st, ok := x.(*ssa.Store)
+		if !ok {
+			return false
+		}
+		f, _ := addrField(st.Addr)
+		return f == fLen
+	}) == nil
+	c.Check(okLen, fn, nil, "every item records its data length", "")
+}
+
 // C01.d epoch capture in NewSnapshot.
 func clEpochCapture(c *Ctx) {
 	p := c.P
